@@ -184,7 +184,9 @@ pub fn run(o: &Opts) -> i32 {
                 rep.count("excluded_lib_panics", 1);
                 continue;
             }
-            let (file, _) = write_case_files(&dir, "case", case, noargs);
+            // the path form is part of the configuration: plain, with a space, non-ASCII, long
+            let stem = *rng.pick(&["case", "case with space", "c\u{e4}se-\u{3b1}", "case.v2.final", "a-rather-long-file-name-for-a-simfony-program-that-is-still-perfectly-legal-0123456789"]);
+            let (file, _) = write_case_files(&dir, stem, case, noargs);
             for _k in 0..k_seeds {
                 let hs = rng.next() | 1;
                 let debug_first = rng.coin();
